@@ -320,6 +320,13 @@ class Series(_HasIndex):
 
     to_list = tolist
 
+    def sample(self, frac=1, random_state=None):
+        if frac != 1:
+            raise Unsupported("sample(frac != 1)")
+        n = len(self._v)
+        order = list(range(n)) if SAMPLE_MODE[0] == "identity" else symnp.nd_permutation(n, "sample")
+        return Series([self._v[i] for i in order], [self.index[i] for i in order], self.name, self.dtype)
+
     def isna(self):
         return Series([_isna(v) for v in self._v], self.index, self.name, bool_)
 
@@ -388,6 +395,29 @@ class Series(_HasIndex):
         return self._v[self.index.index(k)]
 
     def __setitem__(self, k, v):
+        if isinstance(k, (Series, SArray)) or (isinstance(k, list) and len(k) == len(self._v) and all(isinstance(m, (bool, core.SBool)) for m in k)):
+            # boolean mask: s[mask] = scalar, or = another Series aligned by index label
+            mask = list(k._v) if isinstance(k, Series) else list(k.items) if isinstance(k, SArray) else list(k)
+            if len(mask) != len(self._v):
+                raise Unsupported("Series[mask] = ... with a mask of another length")
+            for i, m in enumerate(mask):
+                if isinstance(v, Series):
+                    if self.index[i] not in v.index:
+                        if m is False:
+                            continue
+                        raise Unsupported("Series[mask] = Series lacking a masked label")
+                    new = v._v[v.index.index(self.index[i])]
+                elif isinstance(v, SArray):
+                    raise Unsupported("Series[mask] = array")
+                else:
+                    new = v
+                if isinstance(m, bool):
+                    if m:
+                        self._v[i] = new
+                else:
+                    self._v[i] = symnp._ite_any(m, new, self._v[i])
+            self.dtype = _dtype_of(self._v)
+            return
         self._v[self.index.index(k)] = v
 
 
@@ -459,7 +489,12 @@ class _Str:
         return self._map(lambda v: len(v), int64)
 
     def split(self, sep=None, n=-1, expand=False):
-        parts = [v.split(sep) if n in (-1, None) else v.split(sep, n) for v in self.s._v]
+        if isinstance(sep, str) and len(sep) > 1 and type(sep) is str and all(type(v) is str for v in self.s._v):
+            # pandas: a pattern longer than one character is a regular expression (concrete strings only)
+            import re as _re
+            parts = [_re.split(sep, v) if n in (-1, None) else _re.split(sep, v, maxsplit=n) for v in self.s._v]
+        else:
+            parts = [v.split(sep) if n in (-1, None) else v.split(sep, n) for v in self.s._v]
         if not expand:
             return Series(parts, self.s.index, self.s.name, object_)
         w = max([len(p) for p in parts] + [0])
